@@ -175,7 +175,12 @@ func c13Tree(r *rand.Rand, k int) (*Node, string) {
 			return Lit(l)
 		}
 		sv := Var("s0", TStr)
-		switch r.Intn(6) {
+		switch r.Intn(7) {
+		case 6:
+			// a conversion whose text is a variable and whose layout is a literal (nothing to fold: both operands stay)
+			lay := [][2]string{{"2006/01/02", "2021/03/04"}, {"01/02/2006", "03/04/2021"}, {"2006-01-02 15:04", "2021-03-04 05:06"}, {"02.01.2006", "04.03.2021"}}[r.Intn(4)]
+			op := []string{"date", "to_date", "datetime", "to_datetime", "t_date", "t_time"}[r.Intn(6)]
+			return Op("or", TBool, Op(">", TBool, Op(op, TInt, Var("sdate", TStr), Lit(lay[0])), Lit(int64(1600000000))), Op("=", TBool, sv, Lit(lay[1]))), "strings"
 		case 0:
 			return Op("=", TBool, ps(), sv), "strings"
 		case 1:
@@ -322,6 +327,12 @@ func c13Run(w *W, idx int) {
 			if _, ok := bs[i].Vals["i1"]; ok {
 				bs[i].Vals["i1"] = l[len(l)-1-r.Intn(1+len(l)/4)]
 			}
+		}
+	}
+	for i := range bs {
+		if _, ok := bs[i].Vals["sdate"]; ok {
+			// a text in one of the layouts used above (the right one parses, the others are run-time errors)
+			bs[i].Vals["sdate"] = []string{"2021/03/04", "03/04/2021", "2021-03-04 05:06", "04.03.2021", "2019/12/31"}[r.Intn(5)]
 		}
 	}
 	if l, ok := cm["KALLS"].([]string); ok {
